@@ -73,6 +73,7 @@ from ..ref import ops
 
 ID = "C16"
 LEVEL = "exploration"
+TECHNIQUE = "runtime monitoring: inequality monitors on the dt returned by the real simulators (both limits, linearity, live attribute changes) + local maximum-principle invariant on real diffusion steps"
 TITLE = "The recommended time step is stable and keeps diffusion monotone"
 RULE = (
     "simulator objects of all three classes (passive 2-D, passive 3-D scalar/vector, Navier-Stokes 2-D/3-D) "
